@@ -67,6 +67,18 @@ func (p *projector) rules(n *SNode) []*jsonx.Node {
 	if n.EnumRef != "" {
 		lit("enum", "reference", n.EnumRef)
 	}
+	if len(n.OrAlts) > 0 {
+		var ch []*jsonx.Node
+		for _, a := range n.OrAlts {
+			if strings.HasPrefix(a, "@") {
+				ch = append(ch, newObj().set("tokenType", str("reference")).set("scalarValue", str(a)).n)
+			} else {
+				ch = append(ch, newObj().set("tokenType", str("object")).set("children",
+					arr(newObj().set("key", str("type")).set("tokenType", str("string")).set("scalarValue", str(a)).n)).n)
+			}
+		}
+		out = append(out, newObj().set("key", str("or")).set("tokenType", str("array")).set("children", arr(ch...)).n)
+	}
 	if len(n.AllOf) == 1 {
 		lit("allOf", "reference", n.AllOf[0])
 	} else if len(n.AllOf) > 1 {
@@ -160,6 +172,9 @@ func (p *projector) content(n *SNode, key *string, inherited string, forceOption
 		case "or":
 			tt, ty, sv = "reference", "mixed", strings.Join(n.Or, " | ")
 		}
+		if len(n.OrAlts) > 0 {
+			ty = "mixed"
+		}
 		o.set("tokenType", str(tt)).set("type", str(ty)).set("scalarValue", str(sv))
 		o.setIf(inherited != "", "inheritedFrom", str(inherited))
 		o.setIf(len(rr) > 0, "rules", arr(rr...))
@@ -177,6 +192,11 @@ func (p *projector) used(n *SNode, out *[]string) {
 			}
 		}
 		*out = append(*out, s)
+	}
+	for _, a := range n.OrAlts {
+		if strings.HasPrefix(a, "@") {
+			add(a)
+		}
 	}
 	switch n.Kind {
 	case "ref":
